@@ -905,49 +905,54 @@ example : (authority .nsec3 (.ok true) (.ok .nxdomain) true false).aggressive = 
 open SdnsVerif.Model.Nsec3 SdnsVerif.Lemmas.Nsec3
 
 /-- **An unproven denial is never passed on.**  For every negative response
-from a signed zone (any records, any hash, any question), a request with
-CD = 0, a zone the resolver holds a DS for, and a question type other than RRSIG: if `Resolver.authority` does not
-fail, then the section named a signer, the question lies in the signer's zone,
-every in-zone RRset verified, and the exact validator `authority` picks for the
-records (NSEC3 if any in-zone NSEC3 is present, else NSEC; none at all is an
-error) ACCEPTED the proof.  There is no "treat as insecure" exit. -/
+from a signed zone (any records, any hash, any question, every question type —
+RRSIG included since /repo 129b2e9), a request with CD = 0 and a zone the
+resolver holds a DS for: if `Resolver.authority` does not fail, then EITHER the
+section named a signer, the question lies in the signer's zone, every in-zone
+RRset verified, and the exact validator `authority` picks for the records
+(NSEC3 if any in-zone NSEC3 is present, else NSEC; none at all is an error)
+ACCEPTED the proof — AD and provenance are its `secure` verdict; OR the section
+carried no signature at all and an insecure delegation strictly above the
+question name (for a DS question: above its parent side) is PROVEN by a
+validly signed DS-lookup response (`provenInsecure`), in which case the
+response travels on without AD and without provenance.  There is no other
+"treat as insecure" exit. -/
 theorem authority_passes_only_proven (H : HashFn) (i : AuthIn)
-    (hcd : i.reqCD = false) (hds : i.haveDS = true) (ht : i.t ≠ 46) (h : (authorityStep H i).servfail = false) :
-    i.signed = true ∧ nameInZone i.q i.signer = true ∧ i.sigsGood = true ∧
-    ∃ secure, authExact H i = .ok secure ∧ (authorityStep H i).ad = secure ∧ (authorityStep H i).marked = secure := by
+    (hcd : i.reqCD = false) (hds : i.haveDS = true) (h : (authorityStep H i).servfail = false) :
+    (i.signed = false ∧ provenInsecure H i = true ∧ (authorityStep H i).ad = false ∧ (authorityStep H i).marked = false) ∨
+    (i.signed = true ∧ nameInZone i.q i.signer = true ∧ i.sigsGood = true ∧
+      ∃ secure, authExact H i = .ok secure ∧ (authorityStep H i).ad = secure ∧ (authorityStep H i).marked = secure) := by
   unfold authorityStep at h ⊢
   simp only [hcd, Bool.false_eq_true, ↓reduceIte] at h ⊢
   cases hs : i.signed <;> simp only [hs, hds, Bool.not_true, Bool.not_false, Bool.false_eq_true, ↓reduceIte] at h ⊢
-  · simp [authServfail] at h
+  · cases hp : provenInsecure H i <;> simp only [hp, Bool.false_eq_true, ↓reduceIte] at h ⊢
+    · simp [authServfail] at h
+    · exact Or.inl ⟨trivial, trivial, rfl, rfl⟩
   cases hz : nameInZone i.q i.signer <;> simp only [hz, Bool.not_true, Bool.not_false, Bool.false_eq_true, ↓reduceIte] at h ⊢
   · simp [authServfail] at h
-  simp only [ht, ↓reduceIte] at h ⊢
   cases hg : i.sigsGood <;> simp only [hg, Bool.not_true, Bool.not_false, Bool.false_eq_true, ↓reduceIte] at h ⊢
   · simp [authServfail] at h
   cases he : authExact H i with
   | error e => rw [he] at h; simp [authority] at h
-  | ok b => exact ⟨trivial, trivial, trivial, b, rfl, by simp [authority], by simp [authority]⟩
+  | ok b => exact Or.inr ⟨trivial, trivial, trivial, b, rfl, by simp [authority], by simp [authority]⟩
 
 /-- AD, provenance and `Aggressive` are downstream of the exact proof: AD = the
 proof is secure; provenance exactly when AD; `Aggressive` only with provenance
 and only when the RFC 8198 evaluator reaches the response's own verdict. -/
 theorem authority_ad_needs_secure_proof (H : HashFn) (i : AuthIn) :
     let o := authorityStep H i
-    (o.ad = true → i.reqCD = false ∧ i.haveDS = true ∧ i.t ≠ 46 ∧ i.sigsGood = true ∧ authExact H i = .ok true) ∧
+    (o.ad = true → i.reqCD = false ∧ i.haveDS = true ∧ i.sigsGood = true ∧ authExact H i = .ok true) ∧
     (o.marked = o.ad) ∧
     (o.aggressive = true → o.marked = true ∧
       ∃ rc, authAgg H i = .ok rc ∧ ((rc == Rcode.nxdomain) == i.nx) = true) := by
   unfold authorityStep
   cases hcd : i.reqCD <;> simp only [Bool.false_eq_true, ↓reduceIte]
   · cases hs : i.signed <;> simp only [Bool.not_true, Bool.not_false, Bool.false_eq_true, ↓reduceIte]
-    · cases i.haveDS <;> simp [authServfail, authPassed]
+    · cases i.haveDS <;> cases provenInsecure H i <;> simp [authServfail, authPassed]
     cases hz : nameInZone i.q i.signer <;> simp only [Bool.not_true, Bool.not_false, Bool.false_eq_true, ↓reduceIte]
     · simp [authServfail]
     cases hds : i.haveDS <;> simp only [Bool.not_true, Bool.not_false, Bool.false_eq_true, ↓reduceIte]
     · simp [authPassed]
-    by_cases ht : i.t = 46
-    · simp [ht, authPassed]
-    simp only [ht, ↓reduceIte]
     cases hg : i.sigsGood <;> simp only [Bool.not_true, Bool.not_false, Bool.false_eq_true, ↓reduceIte]
     · simp [authServfail]
     cases he : authExact H i with
@@ -955,7 +960,7 @@ theorem authority_ad_needs_secure_proof (H : HashFn) (i : AuthIn) :
     | ok b =>
       cases b
       · simp [authority]
-      · refine ⟨fun _ => ⟨trivial, trivial, ht, trivial, rfl⟩, by simp [authority], ?_⟩
+      · refine ⟨fun _ => ⟨trivial, trivial, trivial, rfl⟩, by simp [authority], ?_⟩
         intro ha
         refine ⟨by simp [authority], ?_⟩
         cases hagg : authAgg H i with
@@ -966,9 +971,9 @@ theorem authority_ad_needs_secure_proof (H : HashFn) (i : AuthIn) :
 /-- **NSEC3 records the validator declines to hash with prove nothing** (RFC 5155
 §10.3 / RFC 9276: iterations above the ceiling, unknown hash algorithm, unknown
 flags): when every in-zone NSEC3 record of the response is unusable, the
-response is refused — never downgraded to "insecure" and passed on. -/
+signed response is refused — never downgraded to "insecure" and passed on. -/
 theorem authority_unusable_nsec3_refused (H : HashFn) (i : AuthIn)
-    (hcd : i.reqCD = false) (hds : i.haveDS = true) (ht : i.t ≠ 46)
+    (hcd : i.reqCD = false) (hds : i.haveDS = true) (hsg : i.signed = true)
     (hne : (authNsec3Set i).isEmpty = false) (hun : ∀ r ∈ authNsec3Set i, usable r = false) :
     (authorityStep H i).servfail = true := by
   have hf : (authNsec3Set i).filter usable = [] := by
@@ -985,29 +990,25 @@ theorem authority_unusable_nsec3_refused (H : HashFn) (i : AuthIn)
   obtain ⟨e, he⟩ := hex
   unfold authorityStep
   simp only [hcd, Bool.false_eq_true, ↓reduceIte]
-  cases i.signed <;> simp only [hds, Bool.not_true, Bool.not_false, Bool.false_eq_true, ↓reduceIte]
-  · rfl
+  simp only [hsg, hds, Bool.not_true, Bool.false_eq_true, ↓reduceIte]
   cases nameInZone i.q i.signer <;> simp only [Bool.not_true, Bool.not_false, Bool.false_eq_true, ↓reduceIte]
   · rfl
-  simp only [ht, ↓reduceIte]
   cases i.sigsGood <;> simp only [Bool.not_true, Bool.not_false, Bool.false_eq_true, ↓reduceIte]
   · rfl
   rw [he]; simp [authority]
 
 /-- no denial record of the signer zone at all: refused (`ErrNSECMissingCoverage`). -/
 theorem authority_without_denial_records_refused (H : HashFn) (i : AuthIn)
-    (hcd : i.reqCD = false) (hds : i.haveDS = true) (ht : i.t ≠ 46)
+    (hcd : i.reqCD = false) (hds : i.haveDS = true) (hsg : i.signed = true)
     (h3 : (authNsec3Set i).isEmpty = true) (h1 : (authNsecSet i).isEmpty = true) :
     (authorityStep H i).servfail = true := by
   have he : authExact H i = .error .missing := by
     unfold authExact; simp [h3, h1]
   unfold authorityStep
   simp only [hcd, Bool.false_eq_true, ↓reduceIte]
-  cases i.signed <;> simp only [hds, Bool.not_true, Bool.not_false, Bool.false_eq_true, ↓reduceIte]
-  · rfl
+  simp only [hsg, hds, Bool.not_true, Bool.false_eq_true, ↓reduceIte]
   cases nameInZone i.q i.signer <;> simp only [Bool.not_true, Bool.not_false, Bool.false_eq_true, ↓reduceIte]
   · rfl
-  simp only [ht, ↓reduceIte]
   cases i.sigsGood <;> simp only [Bool.not_true, Bool.not_false, Bool.false_eq_true, ↓reduceIte]
   · rfl
   rw [he]; simp [authority]
@@ -1016,15 +1017,20 @@ theorem authority_without_denial_records_refused (H : HashFn) (i : AuthIn)
 under the side condition of `nameError_nsec_sound`), a response whose NSEC
 records are any selection of the zone's genuine chain plus records outside the
 zone, no NSEC3 record of the zone in it, validated under the zone's apex as
-signer, request CD = 0, question type not RRSIG: if `Resolver.authority` passes
+signer, request CD = 0: if `Resolver.authority` passes
 the response on at all, the zone's own answer to the question is the denial
 the response claims — NXDOMAIN for RCODE 3, NODATA for an empty NOERROR. -/
 theorem authority_nsec_end_to_end (H : HashFn) (z : Zone) (hz : z.WF)
     (hroot : z.apex = [] → z.inTree [star] = false) (i : AuthIn)
     (hsig : i.signer = z.apex) (hs : SetOK z i.nsec) (h3 : (authNsec3Set i).isEmpty = true)
-    (hcd : i.reqCD = false) (hds : i.haveDS = true) (ht : i.t ≠ 46) (h : (authorityStep H i).servfail = false) :
+    (hcd : i.reqCD = false) (hds : i.haveDS = true) (hsg : i.signed = true)
+    (h : (authorityStep H i).servfail = false) :
     z.answerClass i.q i.t = (if i.nx then .nxdomain else .nodata) := by
-  obtain ⟨_, hq, _, b, hb, _, _⟩ := authority_passes_only_proven H i hcd hds ht h
+  obtain ⟨_, hq, _, b, hb, _, _⟩ : i.signed = true ∧ nameInZone i.q i.signer = true ∧ i.sigsGood = true ∧
+      ∃ secure, authExact H i = .ok secure ∧ (authorityStep H i).ad = secure ∧ (authorityStep H i).marked = secure := by
+    rcases authority_passes_only_proven H i hcd hds h with h' | h'
+    · rw [hsg] at h'; cases h'.1
+    · exact h'
   have hq' : z.apex <+: i.q := by
     rw [← hsig]; exact List.isPrefixOf_iff_prefix.mp (by simpa [nameInZone] using hq)
   unfold authExact at hb
@@ -1054,7 +1060,7 @@ theorem authority_nsec3_nxdomain_end_to_end (names : List Name) (H : Name → Ha
     (hrec : ∀ r ∈ i.nsec3, FromRing names H r) (hnsec : i.nsec = [])
     (hclosed : ∀ n ∈ names, ∀ j, i.signer.length ≤ j → j ≤ n.length → n.take j ∈ names)
     (hnx : i.nx = true) (had : (authorityStep (fun n => some (H n)) i).ad = true) : i.q ∉ names := by
-  obtain ⟨_, _, _, _, hex⟩ := (authority_ad_needs_secure_proof (fun n => some (H n)) i).1 had
+  obtain ⟨_, _, _, hex⟩ := (authority_ad_needs_secure_proof (fun n => some (H n)) i).1 had
   unfold authExact at hex
   have hrec' : ∀ r ∈ authNsec3Set i, FromRing names H r := by
     intro r hr; unfold authNsec3Set at hr; exact hrec r (List.mem_filter.mp hr).1
@@ -1091,8 +1097,8 @@ def wAuth : AuthIn :=
 example : authorityStep (fun _ => none) wAuth = { servfail := false, ad := true, marked := true, aggressive := true } := by
   decide
 example : wzone.answerClass [L "example", L "b"] 1 = .nxdomain :=
-  authority_nsec_end_to_end (fun _ => none) wzone wzone_wf (by decide) wAuth rfl wzone_chain_ok (by decide) rfl rfl
-    (by decide) (by decide)
+  authority_nsec_end_to_end (fun _ => none) wzone wzone_wf (by decide) wAuth rfl wzone_chain_ok (by decide) rfl rfl rfl
+    (by decide)
 
 /-- **From the upstream response to shared state.**  Whatever the response, the
 hash and the cache-side guard bits are: a denial proof or an RFC 8020 subtree
@@ -1104,16 +1110,85 @@ records. (`authorityStep` composed with `admission_guard`.) -/
 theorem shared_state_needs_proven_denial (H : HashFn) (i : AuthIn) (respCD ecs hasScope copied optout : Bool)
     (h : proofRecorded (pipelineWrite H i respCD ecs hasScope copied optout) = true ∨
          cutRecorded (pipelineWrite H i respCD ecs hasScope copied optout) = true) :
-    i.reqCD = false ∧ i.haveDS = true ∧ i.t ≠ 46 ∧ i.sigsGood = true ∧ authExact H i = .ok true ∧
+    i.reqCD = false ∧ i.haveDS = true ∧ i.sigsGood = true ∧ authExact H i = .ok true ∧
     ∃ rc, authAgg H i = .ok rc ∧ ((rc == Rcode.nxdomain) == i.nx) = true := by
   obtain ⟨hm, _, ha, _⟩ := admission_guard _ h
   have hm' : (authorityStep H i).marked = true := hm
   have ha' : (authorityStep H i).aggressive = true := ha
   obtain ⟨h1, h2, h3⟩ := authority_ad_needs_secure_proof H i
-  obtain ⟨hcd, hds, ht, hg, hex⟩ := h1 (by rw [← h2]; exact hm')
-  exact ⟨hcd, hds, ht, hg, hex, (h3 ha').2⟩
+  obtain ⟨hcd, hds, hg, hex⟩ := h1 (by rw [← h2]; exact hm')
+  exact ⟨hcd, hds, hg, hex, (h3 ha').2⟩
 
 example : proofRecorded (pipelineWrite (fun n => some (toyH n)) toyAuth false false false false false) = true := by decide
+
+/-- **The only excuse for a missing signature is a proven insecure delegation.**
+`provenInsecure` (what lets `Resolver.authority` pass an UNSIGNED negative
+response from below a secure zone on) holds only if the name the excuse is
+about (`insecureProofName`: the question name, for a DS question its parent)
+lies strictly below the zone, the resolver's own DS lookup for the first cut
+candidate came back with every in-zone RRset verified, and the delegation
+validator accepted its records for exactly that candidate.  End to end for an
+NSEC-signed zone `z` (records = any selection of the genuine chain plus
+out-of-zone pollution, no in-zone NSEC3): the candidate IS an owner of `z`
+that is a delegation point without DS — the unsigned data really lives in an
+insecure child. -/
+theorem unsigned_passed_needs_insecure_delegation (H : HashFn) (i : AuthIn) (h : provenInsecure H i = true) :
+    let pn := insecureProofName i.q i.t
+    let cut := firstCut i.signer pn
+    nameInZone pn i.signer = true ∧ pn ≠ i.signer ∧ i.dsSigsGood = true ∧
+    (verifyDelegation H (i.dsNsec3.filter fun r => nameInZone r.owner i.signer) i.signer cut = .ok () ∨
+     ((i.dsNsec3.filter fun r => nameInZone r.owner i.signer).isEmpty = true ∧
+      verifyDelegationNSEC cut (filterToZone i.signer i.dsNsec) = .ok ())) ∧
+    (∀ z : Zone, z.WF → i.signer = z.apex → SetOK z i.dsNsec →
+      (i.dsNsec3.filter fun r => nameInZone r.owner i.signer).isEmpty = true →
+      ∃ n, z.find cut = some n ∧ delegTypes n.types = true ∧ tDS ∉ n.types) := by
+  intro pn cut
+  unfold provenInsecure at h
+  simp only [] at h
+  have hpn : (insecureProofName i.q i.t) = pn := rfl
+  rw [hpn] at h
+  by_cases hc : (!nameInZone pn i.signer || pn == i.signer) = true
+  · simp [hc] at h
+  simp only [hc, Bool.false_eq_true, ↓reduceIte] at h
+  have hz : nameInZone pn i.signer = true := by
+    cases hz : nameInZone pn i.signer
+    · simp [hz] at hc
+    · rfl
+  have he : (pn == i.signer) = false := by
+    cases he : (pn == i.signer)
+    · rfl
+    · simp [he] at hc
+  have hg : i.dsSigsGood = true := by
+    cases hg : i.dsSigsGood
+    · simp [hg] at h
+    · rfl
+  have hne : pn ≠ i.signer := by intro e; rw [e] at he; simp at he
+  have hcut : firstCut i.signer pn = cut := rfl
+  rw [hcut] at h
+  cases h3 : (i.dsNsec3.filter fun r => nameInZone r.owner i.signer).isEmpty
+  · have hv : verifyDelegation H (i.dsNsec3.filter fun r => nameInZone r.owner i.signer) i.signer cut = .ok () := by
+      simpa [hg, h3] using h
+    refine ⟨hz, hne, hg, Or.inl hv, ?_⟩
+    intro z _ _ _ hemp; cases hemp
+  · cases h1 : (filterToZone i.signer i.dsNsec).isEmpty
+    · have hv : verifyDelegationNSEC cut (filterToZone i.signer i.dsNsec) = .ok () := by simpa [hg, h3, h1] using h
+      refine ⟨hz, hne, hg, Or.inr ⟨rfl, hv⟩, ?_⟩
+      intro z hzw hsig hs _
+      rw [hsig] at hv
+      exact delegation_nsec_sound z hzw i.dsNsec hs cut hv
+    · simp [hg, h3, h1] at h
+
+-- non-vacuity: below the insecure delegation `sub.example.` of `wzone` an unsigned NXDOMAIN is excused by the
+-- zone's own chain returned (signed) for `sub.example. DS`; the same response for `zzz.example.` (no cut) is refused
+def uAuth (q : Name) : AuthIn :=
+  { signer := wzone.apex, q := q, t := 1, nx := true, reqCD := false, haveDS := true, signed := false, sigsGood := false,
+    nsec := [], nsec3 := [], dsSigsGood := true, dsNsec := wzone.chain }
+example : authorityStep (fun _ => none) (uAuth [L "example", L "sub", L "a"]) = authPassed ∧
+    authorityStep (fun _ => none) (uAuth [L "example", L "zzz", L "a"]) = authServfail ∧
+    authorityStep (fun _ => none) { uAuth [L "example", L "sub", L "a"] with dsSigsGood := false } = authServfail := by decide
+example : ∃ n, wzone.find [L "example", L "sub"] = some n ∧ delegTypes n.types = true ∧ tDS ∉ n.types :=
+  (unsigned_passed_needs_insecure_delegation (fun _ => none) (uAuth [L "example", L "sub", L "a"]) (by decide)).2.2.2.2
+    wzone wzone_wf rfl wzone_chain_ok (by decide)
 
 -- non-vacuity: a proven NXDOMAIN is passed on with AD, provenance and `Aggressive`;
 -- the same records without signatures, or for an RRSIG question, are not
